@@ -1,6 +1,8 @@
 package lists
 
 import (
+	"unicode/utf8"
+
 	"github.com/lmorg/murex/lang"
 	"github.com/lmorg/murex/lang/types"
 )
@@ -33,11 +35,7 @@ func cmdLeft(p *lang.Process) error {
 	switch {
 	case left > 0:
 		p.Stdin.ReadArray(p.Context, func(b []byte) {
-			if len(b) < left {
-				err = aw.Write(b)
-			} else {
-				err = aw.Write(b[:left])
-			}
+			err = aw.Write(b[:charOffset(b, left)])
 
 			if err != nil {
 				p.Stdin.ForceClose()
@@ -48,10 +46,10 @@ func cmdLeft(p *lang.Process) error {
 	case left < 0:
 		left = left * -1
 		p.Stdin.ReadArray(p.Context, func(b []byte) {
-			if len(b) < left {
+			if n := utf8.RuneCount(b); n < left {
 				err = aw.WriteString("")
 			} else {
-				err = aw.Write(b[:len(b)-left])
+				err = aw.Write(b[:charOffset(b, n-left)])
 			}
 
 			if err != nil {
@@ -98,10 +96,10 @@ func cmdRight(p *lang.Process) error {
 	switch {
 	case right > 0:
 		p.Stdin.ReadArray(p.Context, func(b []byte) {
-			if len(b) < right {
+			if n := utf8.RuneCount(b); n < right {
 				err = aw.Write(b)
 			} else {
-				err = aw.Write(b[len(b)-right:])
+				err = aw.Write(b[charOffset(b, n-right):])
 			}
 
 			if err != nil {
@@ -113,10 +111,10 @@ func cmdRight(p *lang.Process) error {
 	case right < 0:
 		right = right * -1
 		p.Stdin.ReadArray(p.Context, func(b []byte) {
-			if len(b) < right {
+			if utf8.RuneCount(b) < right {
 				err = aw.WriteString("")
 			} else {
-				err = aw.Write(b[right:])
+				err = aw.Write(b[charOffset(b, right):])
 			}
 
 			if err != nil {
@@ -141,6 +139,20 @@ func cmdRight(p *lang.Process) error {
 	}
 
 	return aw.Close()
+}
+
+// charOffset returns the byte offset in b of the end of its first n characters
+// (UTF-8 encoded code points; a byte that is not part of a valid encoding
+// counts as one character), or len(b) if b holds fewer than n characters.
+// `left` and `right` count characters, so a multi-byte character is never cut
+// in half.
+func charOffset(b []byte, n int) int {
+	i := 0
+	for ; n > 0 && i < len(b); n-- {
+		_, size := utf8.DecodeRune(b[i:])
+		i += size
+	}
+	return i
 }
 
 func cmdPrefix(p *lang.Process) error { return cmdFix(p, true) }
